@@ -708,6 +708,10 @@ func (c *Ctx) c12Limits() {
 			if s, isC := ConstStr(Arg(pc, 0)); isC && s == "" {
 				ok = true
 			}
+			// the join of no passwords is the empty list as well
+			if jc, _ := CallOf(Arg(pc, 0)); jc != nil && (Callee(jc) == "strings.Join" || Callee(jc) == "ab/otp.joinOTPs") && IsNilConst(Arg(jc, 0)) {
+				ok = true
+			}
 		}
 		r.Check(ok, "C12.otp-limit", FuncName(clr), `PutOTPs("")`, c.P.Pos(clr.Pos()), "clears the list", "ClearPost does not store the empty list")
 		c.mustSaveAfterPut("C12.save", clr, nil)
